@@ -80,12 +80,100 @@ class ClassInfo:
         return '<class %s>' % self.qualname
 
 
+def _cross_module_helpers(sources):
+    """T0 across modules: a module-level function that is NOT in the anchor table of its module (it
+    was introduced after the rules were written) and is called from another module of the package
+    (``pkg.mod.f(...)``, ``mod.f(...)`` or ``from .mod import f``) is copied next to its caller under
+    a private name, so that the per-module normaliser can inline it there like a local helper.
+    Returns {module name: parsed tree}.  On the tree the table was frozen from nothing is new, so
+    this is the identity there."""
+    import copy
+    from .normalise import table
+    trees = {}
+    for name, src in sources.items():
+        trees[name] = ast.parse(src)
+    new_funcs = {}
+    for name, tree in trees.items():
+        known = table().get(name)
+        if known is None:
+            continue
+        kf = set(known.get('functions', ()))
+        for st in tree.body:
+            if isinstance(st, ast.FunctionDef) and st.name not in kf and not st.decorator_list and \
+                    not any(isinstance(x, (ast.Yield, ast.YieldFrom, ast.Global, ast.Nonlocal))
+                            for x in ast.walk(st)):
+                new_funcs[(name, st.name)] = st
+    if not new_funcs:
+        return trees
+    for aname, tree in trees.items():
+        if table().get(aname) is None:
+            continue
+        imported = {}          # local name -> (module, function)
+        for node in ast.walk(tree):
+            if isinstance(node, ast.ImportFrom):
+                mod = (node.module or '').split('.')[-1]
+                for a in node.names:
+                    if (mod, a.name) in new_funcs and mod != aname:
+                        imported[a.asname or a.name] = (mod, a.name)
+        added = {}
+        for node in ast.walk(tree):
+            if not isinstance(node, ast.Call):
+                continue
+            key = None
+            f = node.func
+            if isinstance(f, ast.Name) and f.id in imported:
+                key = imported[f.id]
+            elif isinstance(f, ast.Attribute) and isinstance(f.value, (ast.Name, ast.Attribute)):
+                parts = []
+                cur = f
+                while isinstance(cur, ast.Attribute):
+                    parts.append(cur.attr)
+                    cur = cur.value
+                if isinstance(cur, ast.Name):
+                    parts.append(cur.id)
+                    parts.reverse()
+                    if len(parts) >= 2 and (parts[-2], parts[-1]) in new_funcs and parts[-2] != aname and \
+                            (len(parts) == 2 or parts[:-2] == PKG.split('.')):
+                        key = (parts[-2], parts[-1])
+            if key is None:
+                continue
+            local = '_xm_%s_%s' % key
+            if key not in added:
+                fn = copy.deepcopy(new_funcs[key])
+                fn.name = local
+                added[key] = fn
+            node.func = ast.copy_location(ast.Name(id=local, ctx=ast.Load()), node.func)
+        if added:
+            # the helper's free module-level names: bring the defining module's imports along
+            bound = {n.id for n in ast.walk(tree) if isinstance(n, ast.Name) and isinstance(n.ctx, ast.Store)}
+            for n in ast.walk(tree):
+                if isinstance(n, (ast.Import, ast.ImportFrom)):
+                    for a in n.names:
+                        bound.add((a.asname or a.name).split('.')[0])
+            extra = []
+            for (bmod, _f), fn in added.items():
+                used = {n.id for n in ast.walk(fn) if isinstance(n, ast.Name)}
+                for st in trees[bmod].body:
+                    if isinstance(st, (ast.Import, ast.ImportFrom)):
+                        names = {(a.asname or a.name).split('.')[0] for a in st.names}
+                        if names & used and not names & bound:
+                            extra.append(copy.deepcopy(st))
+                            bound |= names
+            pos = 0
+            while pos < len(tree.body) and (isinstance(tree.body[pos], (ast.Import, ast.ImportFrom)) or (
+                    isinstance(tree.body[pos], ast.Expr) and isinstance(tree.body[pos].value, ast.Constant))):
+                pos += 1
+            tree.body[pos:pos] = extra + list(added.values())
+            ast.fix_missing_locations(tree)
+    return trees
+
+
 class ModuleInfo:
-    def __init__(self, name, source):
+    def __init__(self, name, source, tree=None):
         self.name = name                       # short module name: 'runner'
         self.source = source
         self.normalised = {}
-        self.tree = normalise(ast.parse(source), name, self.normalised)
+        self.tree = normalise(tree if tree is not None else ast.parse(source), name, self.normalised)
         from .canon import canonicalise
         self.renamed = []
         canonicalise(self.tree, name, self.renamed)
@@ -177,9 +265,13 @@ class Model:
     def __init__(self, sources):
         self.sources = dict(sources)
         self.modules = {}
+        try:
+            trees = _cross_module_helpers(self.sources)
+        except SyntaxError as e:
+            raise AnalysisError('cannot parse: %s' % e)
         for name, src in sorted(sources.items()):
             try:
-                self.modules[name] = ModuleInfo(name, src)
+                self.modules[name] = ModuleInfo(name, src, trees.get(name))
             except SyntaxError as e:
                 raise AnalysisError('cannot parse %s: %s' % (name, e))
 
